@@ -11,7 +11,7 @@ if not os.path.isdir(WT):
 dirs = sorted(glob.glob(os.environ.get("SEED_GLOB", "/tmp/seed/out/C*/[12]")))
 only = sys.argv[1:]
 for d in dirs:
-    pid = [x for x in d.split("/") if re.fullmatch(r"C\d\d", x)][-1]
+    pid = [x for x in d.split("/") if re.fullmatch(r"C\d\d[a-z]?", x)][-1]
     if only and pid not in only: continue
     out = os.path.join(d, "confirm.json")
     if os.path.exists(out): continue
